@@ -29,12 +29,16 @@ def run(tier, seed):
                     continue
                 for tt in ((False, True) if n <= 2 else (False,)):
                     cases.append(Case('many_n%d_k%d_m%d_t%d' % (n, kp, mp, tt), 'crypto', 'zzC02_many', [n, kp, mp, tt], opts=opts))
+    # one key signing m distinct messages: one group of m hashes on the per-distinct-key path, m pairs > the
+    # multi-pairing batch of 8 on the other (no map-order forks: a single key)
+    for m in ((9, 17) if thorough else (9,)):
+        cases.append(Case('wide_onekey_m%d' % m, 'crypto', 'zzC02_wide', [m, 0], opts={}))
     cases.sort(key=lambda c: -(c.args[0] if c.args else 0))
     return run_check('C02', cases, tier, seed, setup=SETUP, timeout_ms=600000,
         functions=['VerifyBLSSignatureManyMessages', 'VerifyBLSSignatureOneMessage', 'AggregateBLSPublicKeys', 'C:bls_verifyPerDistinctMessage', 'C:bls_verifyPerDistinctKey', 'C:E2_sum_vector', 'C:E1_sum_vector', 'C:Fp12_multi_pairing', 'C:map_to_G1'],
         bounds={'n': 'n <= %d triples; every assignment pattern of keys and of messages to positions (set partitions; a subset of the 25 pattern pairs for n = 3 in the quick tier), equal points in distinct key objects, one or two hashers' % (4 if thorough else 3),
                 'maps': 'every iteration order of the Go map that is ranged over (the engine forks over all orders); which C path runs follows from the pattern',
                 'candidates': 'honest aggregate + delta*g1 with symbolic delta; cancelling keys; identity key; error cases',
-                'outside': 'n > 4; BLST internals'},
+                'wide': 'one key with 9 (thorough: 17) distinct messages, crossing the batch-of-8 boundaries', 'outside': 'n > 4 in general (a defect that needs more than 17 entries in one group, e.g. a batch of 64, is outside the bound: seeded change C02_d is missed); BLST internals'},
         assumptions=ASSUME + ['distinct message ids give distinct messages (first byte)'], trusted=galg.TRUSTED + stubs_hash.TRUSTED,
         explanation='symbolic execution of the Go grouping code (two maps, flattening) and of both C verification paths including their offset bookkeeping and malloc/free, with exact polynomial discrete logs; memory safety of the C offsets is checked on all paths')
